@@ -7,6 +7,7 @@ package main
 // observed so that the specification can judge them.
 
 import (
+	"sort"
 	"fmt"
 	"math/rand"
 	"sync"
@@ -322,6 +323,31 @@ func families() []family {
 			v := n.ParseSource(src)
 			return n.FormatValue(v)
 		}},
+		{"shuffle", func(id int) string {
+			// shuffles on distinct instances: each result is a permutation of its own input
+			l := col.List[int](notation).MakeFromArray(scalars(id, 30))
+			l.ShuffleValues()
+			ws := scalars(id+1, 25)
+			age.Sorter[int]().Make().ShuffleValues(ws)
+			a := append([]int{}, l.AsArray()...)
+			sort.Ints(a)
+			sort.Ints(ws)
+			return digestInts(a) + digestInts(ws)
+		}},
+		{"format-after-failure", func(id int) string {
+			// a format call that panics half-way (a value without a CDCN form, nested) on one notation, then a call on
+			// ANOTHER notation: what the second one writes must not depend on the first
+			good := col.List[any](notation).MakeFromArray([]any{id, col.List[any](notation).MakeFromArray([]any{id + 1, "x"})})
+			want := cdc.Notation().Make().FormatValue(good)
+			func() {
+				defer func() { recover() }()
+				bad := col.List[any](notation).MakeFromArray([]any{1, col.List[any](notation).MakeFromArray([]any{2, unformattable{3}})})
+				cdc.Notation().Make().FormatValue(bad)
+			}()
+			got := cdc.Notation().Make().FormatValue(good)
+			got2 := fmt.Sprint(col.List[int](notation).MakeFromArray(scalars(id, 4)))
+			return fmt.Sprint(want == got) + got + got2
+		}},
 		{"iterate", func(id int) string {
 			l := col.List[int](notation).MakeFromArray(scalars(id, 20))
 			it := l.GetIterator()
@@ -512,6 +538,31 @@ func runC19stress(tier string, seed int64, out *Out) {
 				}
 			}
 		}
+	}
+	// a call that fails half-way on one instance, then the same question asked of ANOTHER instance (sequentially):
+	// the answer is what it was before the failure
+	for rep := 0; rep < 6; rep++ {
+		good := col.List[any](notation).MakeFromArray([]any{rep, col.List[any](notation).MakeFromArray([]any{rep + 1, "x"})})
+		deep := nestedValue(3+rep, rep)
+		want := cdc.Notation().Make().FormatValue(good)
+		wantEq := age.Collator[any]().Make().CompareValues(deep, nestedValue(3+rep, rep))
+		func() {
+			defer func() { recover() }()
+			bad := col.List[any](notation).MakeFromArray([]any{1, col.List[any](notation).MakeFromArray([]any{2, unformattable{3}})})
+			cdc.Notation().Make().FormatValue(bad)
+		}()
+		func() {
+			defer func() { recover() }()
+			age.Collator[any]().MakeWithMaximum(2).CompareValues(nestedValue(6, 1), nestedValue(6, 1))
+		}()
+		got := cdc.Notation().Make().FormatValue(good)
+		gotEq := age.Collator[any]().Make().CompareValues(deep, nestedValue(3+rep, rep))
+		line := J{"k": "indep", "pid": "C19", "families": []string{"after-a-failed-call-on-another-instance", "sequential"}, "g": 1, "ids": []int{rep},
+			"same": want == got && wantEq == gotEq, "panics": []string{}}
+		if want != got {
+			line["differs"] = J{"goroutine": 0, "family": "format", "sequential": trunc(want, 300), "concurrent": trunc(got, 300)}
+		}
+		out.emit(line)
 	}
 	// instances related by a class function (the result of And and its first operand)
 	for rep := 0; rep < reps*8; rep++ {
